@@ -447,20 +447,61 @@ Qed.
 
 (* the handler machine never ends in RPanic: proofs/PreconfProvider_traces.v, no_rpanic_node (used by Properties/C06.v) *)
 
-(* ---- handshake.go: the result is an enrolment or one of seven refusals; nothing else ---------------------- *)
-Theorem handshake_outcomes c o wfail script :
-  let closed r := (exists A T, r = Handshake.Enrol A T) \/
-                  (exists cl, r = Handshake.Refuse cl /\
-                     In cl [Handshake.RSig; Handshake.RAddr; Handshake.RStake; Handshake.RRead;
-                            Handshake.RWrite; Handshake.RPid; Handshake.REcho]) in
-  closed (Handshake.res (Handshake.handle c o wfail script)) /\
-  closed (Handshake.res (Handshake.handshake c o wfail script)).
+(* ---- handshake.go with signer.Verify plugged in: no script makes Handle / Handshake panic ---------------------- *)
+Lemma hs_guard_no_panic K cr r : recover_total cr -> recover_len cr -> hs_guard K cr r <> Panic.
 Proof.
-  cbn zeta. split.
-  - destruct (Handshake.res (Handshake.handle c o wfail script)) as [A T|cl]; [left; eauto|right].
-    exists cl. split; [reflexivity|]. destruct cl; cbn; tauto.
-  - destruct (Handshake.res (Handshake.handshake c o wfail script)) as [A T|cl]; [left; eauto|right].
-    exists cl. split; [reflexivity|]. destruct cl; cbn; tauto.
+  intros NP RL. unfold hs_guard.
+  rewrite (existsb_all_false _ (fun sd => is_panic (signer_verify K cr (fst sd) (snd sd))) (Handshake.verifies r)).
+  - discriminate.
+  - intros [sig data]. cbn [fst snd]. pose proof (signer_verify_no_panic K cr sig data NP RL) as H.
+    destruct (signer_verify K cr sig data); try reflexivity. contradiction.
+Qed.
+
+Theorem handle_outcome_no_panic K cr c pid reg wfail script :
+  recover_total cr -> recover_len cr -> handle_outcome K cr c pid reg wfail script <> Panic.
+Proof. intros NP RL. apply hs_guard_no_panic; assumption. Qed.
+
+Theorem handshake_outcome_no_panic K cr c pid reg wfail script :
+  recover_total cr -> recover_len cr -> handshake_outcome K cr c pid reg wfail script <> Panic.
+Proof. intros NP RL. apply hs_guard_no_panic; assumption. Qed.
+
+(* the guard is not idle: with a library that accepts an empty signature the first request crashes Handle *)
+Example handle_outcome_needs_recover_len :
+  exists cr, recover_total cr /\
+    handle_outcome k0 cr {| Handshake.own_type := 2%Z; Handshake.own_token := []; Handshake.own_addr := []; Handshake.own_sig := [] |}
+      Handshake.PErr (fun _ => false) (fun _ => false)
+      [{| Handshake.as_req := Some ([], [], []); Handshake.as_resp := None |}] = Panic.
+Proof.
+  exists {| recover := fun _ _ => Ok []; verify_rs := fun _ _ _ => false; addr_of := fun p => p; sign := fun _ => Err 0 |}.
+  split; [intros h s; discriminate|vm_compute; reflexivity].
+Qed.
+
+(* the provider-API service inside the handler machine never reaches its crash state (send on a closed channel) *)
+Theorem provider_service_never_panics K addr evs :
+  ProviderSvc.panicked (PreconfProvider.svc
+    (PreconfProvider.run K ProviderSvc.rules_validators (PreconfProvider.node_wiring addr) evs)) = false.
+Proof.
+  exact (ProviderSvc_proofs.inv_nopanic _ _
+           (PreconfProvider_proofs.pi_svc _ _ _ _ _
+              (PreconfProvider_proofs.run_pinv K ProviderSvc.rules_validators (PreconfProvider.node_wiring addr) evs))).
+Qed.
+
+(* unknown roles: FromString's default is -1, and a peer of a type that is neither provider nor bidder leaves the
+   topology's views as they are (Connected / AddPeers / Disconnected) *)
+Lemma unknown_role_default s :
+  Handshake.role_of_string s = (-1)%Z \/ Handshake.role_of_string s = 0%Z \/
+  Handshake.role_of_string s = 1%Z \/ Handshake.role_of_string s = 2%Z.
+Proof.
+  unfold Handshake.role_of_string. destruct Generated.c04_fromstring_strings as [|s0 [|s1 [|s2 [|]]]]; auto.
+  destruct (bytes_eqb s s0); auto. destruct (bytes_eqb s s1); auto. destruct (bytes_eqb s s2); auto.
+Qed.
+
+Lemma topology_ignores_unknown_type p st :
+  Topology.p_role p <> Topology.ROLE_PROVIDER -> Topology.p_role p <> Topology.ROLE_BIDDER ->
+  Topology.add p st = st /\ Topology.remove p st = st.
+Proof.
+  intros H1 H2. unfold Topology.add, Topology.remove.
+  apply Z.eqb_neq in H1. apply Z.eqb_neq in H2. rewrite H1, H2. split; reflexivity.
 Qed.
 
 (* ---- the two layers meet: the summary the drivers compute, as a function of the Signer model --------------- *)
